@@ -14,9 +14,17 @@ type verifScriptReader struct {
 	sizes  []int
 	i      int
 	maxOne int
+	stale  bool   // the first Read scribbles arbitrary bytes over the whole slice it is given (io.Reader allows that)
+	whole  []byte // alias of the slice given to the first Read: the framer's whole receive buffer
 }
 
 func (r *verifScriptReader) Read(p []byte) (int, error) {
+	if r.whole == nil {
+		r.whole = p
+		if r.stale {
+			copy(p, verifBytesUF("stale", len(p)))
+		}
+	}
 	if r.off >= len(r.data) {
 		return 0, io.EOF
 	}
@@ -54,8 +62,17 @@ func verifC11Block(stream []byte) ([]byte, int) {
 }
 
 func VerifC11_StreamFromEntry() {
-	k := verifParam("blocks", 2)
-	nreads := verifParam("reads", 3)
+	verifC11Stream(verifParam("blocks", 2), verifParam("reads", 3), false)
+}
+
+// The same scenario with the framer's loop invariant observed (see the comment at the probe) and with arbitrary
+// stale bytes in the receive buffer; fewer block lengths so that the additional byte comparisons stay affordable.
+func VerifC11_LoopInvariant() {
+	verifC11Lens = []int{0, 1, 253, 8796}
+	verifC11Stream(verifParam("invblocks", 2), verifParam("invreads", 3), true)
+}
+
+func verifC11Stream(k, nreads int, invariant bool) {
 	stream := make([]byte, 0, 64)
 	var sizes []int
 	for i := 0; i < k; i++ {
@@ -63,19 +80,47 @@ func VerifC11_StreamFromEntry() {
 		stream, sz = verifC11Block(stream)
 		sizes = append(sizes, sz)
 	}
-	rd := &verifScriptReader{data: stream}
+	rd := &verifScriptReader{data: stream, stale: invariant}
 	for i := 0; i < nreads-1; i++ {
 		rd.sizes = append(rd.sizes, int(verifRange("chunk", 1, 3*8800)))
 	}
 	var frames [][]byte
 	var err error
+	delivered := 0
+	// Loop invariant of the framer, observed at every arrival at its receive loop's head (symbolic runs only): nothing
+	// delivered is still buffered, the unparsed remainder sits at the front of the buffer, is shorter than one packet
+	// and equals the bytes received but not yet delivered.  Every such state is also the state after a first read
+	// that delivers exactly that remainder, so what this harness shows for the first reads of a stream holds at any
+	// later point of a stream of any length (for the block lengths of the list).
+	probe := func(v []int) {
+		recvOff, tlvOff := v[0], v[1]
+		// whatever the compaction policy: the unparsed region holds exactly the bytes received and not yet delivered,
+		// and there is room to receive more
+		verifAssert(tlvOff >= 0 && tlvOff <= recvOff && (rd.whole == nil || recvOff < len(rd.whole)), "C11/invariant/room-to-receive")
+		verifAssert(recvOff-tlvOff == rd.off-delivered, "C11/invariant/unparsed-region-is-what-was-received-and-not-delivered")
+		if rd.whole != nil && tlvOff >= 0 && tlvOff <= recvOff && recvOff <= len(rd.whole) && recvOff-tlvOff == rd.off-delivered {
+			verifAssertBytesEq(rd.whole[tlvOff:recvOff], stream[delivered:rd.off], "C11/invariant/unparsed-bytes-are-the-undelivered-stream-bytes")
+		}
+		// canonical states (remainder at the front, at most one packet) are exactly the states a first read of that
+		// remainder produces; if every observed state is canonical the bounded result extends to streams of any length
+		if tlvOff == 0 && recvOff <= 8800 {
+			verifReached("C11/lift/canonical-state")
+		} else {
+			verifReached("C11/lift/NON-canonical-state (unbounded lift not established)")
+		}
+	}
+	if invariant {
+		verifProbeLoop("readTlvStream", "recvOff,tlvOff", probe)
+	}
 	verifNoPanic("C11/stream/no-panic", func() {
 		err = readTlvStream(rd, func(f []byte) {
 			c := make([]byte, len(f))
 			copy(c, f)
 			frames = append(frames, c)
+			delivered += len(f)
 		}, nil)
 	})
+	verifProbeLoop("", "", nil)
 	verifAssert(err == nil, "C11/stream/no-error")
 	verifAssert(len(frames) == k, "C11/stream/frame-count")
 	off := 0
